@@ -97,6 +97,23 @@ def prefix_name_cases():
     return out
 
 
+def shadowed_extern_cases():
+    """the same extern name bound to different C++ types in the interface's namespace and in the component's namespace (each scope
+    chain sees exactly one of them): the formals of an event are typed as seen from the interface that declares the event"""
+    out = []
+    for k, (itf_path, comp_path, comp_type) in enumerate([(['Lib'], ['App'], 'int'), (['Lib', 'Deep'], ['App'], 'std::string'), (['Lib'], ['App', 'Inner'], 'int')]):
+        dev = ['itf', ['IDev'], [], [['Poke', 'in', ['void'], [['v', ['Val'], 'in']]], ['Level', 'out', ['void'], [['v', ['Val'], 'in'], ['w', ['Val'], 'in']]]]]
+        inner = [['extern', ['Val'], 'double'], dev]
+        lib = ['ns', [itf_path[0]], inner if len(itf_path) == 1 else [['ns', [itf_path[1]], inner]]]
+        ctl = ['itf', ['ICtl'], [], [['Go', 'in', ['void'], [['n', ['Val'], 'in']]], ['Went', 'out', ['void'], [['n', ['Val'], 'in']]]]]
+        comp = ['comp', ['Box'], [['ctl', ['ICtl'], 'provides', False], ['dev', itf_path + ['IDev'], 'requires', False], ['dev2', itf_path + ['IDev'], 'requires', False]]]
+        body = [['extern', ['Val'], comp_type], ctl] + ([comp] if len(comp_path) == 1 else [['ns', [comp_path[1]], [comp]]])
+        file = [lib, ['ns', [comp_path[0]], body]]
+        for pc in ({'p': [['w', 'none'], ['w', 'all']], 'r': [['w', 'none'], ['w', 'all']]}, {'p': [['w', 'all'], ['w', 'none']], 'r': [['s', ['dev2']], ['s', ['dev']]]}):
+            out.append({'file': file, 'cfg': {'file': 'Box.dzn', 'enc': comp_path + ['Box'], 'fac': 'import' if k % 2 else 'create', 'ports': pc}})
+    return out
+
+
 def tie_and_plans(cases):
     """(impl outcomes, model outcomes, plans); a case is 'tied' when the implementation's files equal the model's byte for byte.
     Every case is preceded, in the same interpreter, by a build of its sibling."""
